@@ -244,7 +244,7 @@ def contract(name, attrs, info, fixture_src):
         req.append(('tlru_cfg', 'old(__cache).policy is TLRU ==> tlru_cfg_ok(old(__cache).ttl, old(__cache).frequency_weight)'))
         if has_mem:
             req += [('counters_far_from_saturation', 'freq_far(%s)' % M0)]
-    ens = [('post_wf', ['C04', 'C01'], 'wf(%s, %s)' % (M1, Q1)),
+    ens = [('post_wf', ['C04', 'C01', 'C05', 'C07', 'C08', 'C13'], 'wf(%s, %s)' % (M1, Q1)),
            # C15 at the macro level: one call = one lookup = exactly one counter, a hit exactly when an unexpired entry was found
            # (the stale-entry path of invalidate_on counts as the hit it was; stores and predicates count nothing)
            ('one_lookup_counted_per_call', ['C15'],
@@ -428,7 +428,8 @@ def build(flavour, await_interference=False):
         sig = 'fn w_%s(__cache: &mut %s<%s>%s%s, fx: &mut Fx) -> %s ' % (name, fl['engine'], attrs['ret'], selfp, params, attrs['ret'])
         log = []
         body = W.apply_tail_rules(info['tail'], attrs, log, info['tail_line'], 'w_' + name, await_interference=await_interference,
-                                  cache_static=re.sub(r'[^\w]', '', info['ctor_args'][0]) if info['scope'] == 'async' else None)
+                                  cache_static=re.sub(r'[^\w]', '', info['ctor_args'][0]) if info['scope'] == 'async' else None,
+                                  stats_static=re.sub(r'[^\w]', '', info['ctor_args'][-1]) if info['scope'] in ('async', 'global') and 'STATS' in info['ctor_args'][-1] else None)
         body = re.sub(r'debug_fmt\(&self_\)', 'debug_fmt(self_)', body)
         rebind = ''.join('let %s = %s; ' % (pat, pn) for pn, pat in sorted(attrs.get('patterns', {}).items()))
         if rebind:
@@ -436,7 +437,7 @@ def build(flavour, await_interference=False):
             body = rebind + body
         items.append(dict(kind='fn', name='w_' + name, label=('wrapper[await]::' if await_interference else 'wrapper::') + name, sig_text=sig, body_text='{\n' + body + '\n}', src_line=info['tail_line'],
                           src_file='macro-expansion of fixtures/src/lib.rs', ret='ret', requires=req, ensures=ens, hints=[HINT], pre_log=log,
-                          props=['C20', 'C03'] if await_interference else ['C01', 'C02', 'C03', 'C09', 'C10', 'C11']))
+                          props=['C20', 'C03'] if await_interference else ['C01', 'C02', 'C03', 'C09', 'C10', 'C11', 'C04', 'C05', 'C07', 'C08', 'C13', 'C15']))
         if flavour in ('global', 'async') and not await_interference:
             info['ret'] = attrs['ret']
             cbs = callback_items(name, info, flavour)
